@@ -72,7 +72,8 @@ RULE = ("topk/greedy: 1..12 candidates, all option combinations, losses SquaredE
         "1e300 and 1e-300 sized, k = 0. reuse: one Greedy + one TopK selector object, 2-4 select() calls, RandomState carried over. "
         "online: one callback / selector object, job outputs overwritten and result lists emptied by the caller after each call, integer "
         "targets, on_done_other. predictor_order also: predict() through a recording aggregator with non-uniform weights, members as "
-        "loaders, the caller re-ordering ensemble.predictors between calls, default and process evaluators; a member that raises at every position (finishing first / last), the call must raise "
+        "loaders, the caller re-ordering ensemble.predictors between calls, default and process evaluators; calls on subsets of the members (varying member counts on one evaluator, through "
+        "predictions_from_predictors and through predict() of a shallow copy sharing the evaluator); a member that raises at every position (finishing first / last), the call must raise "
         "RuntimeError and the later calls (other X, other latencies, other member order) must return their own outputs. "
         "non-trivial = at least one greedy step accepted, "
         "or a tie among the candidate losses, or a completion order different from the submission order")
@@ -757,8 +758,9 @@ def check_predictor(case):
     default evaluator (evaluator=None) and the process backend, with members given as Predictors or as
     PredictorLoaders, and with the caller re-ordering `ensemble.predictors` / `weights` between calls.
 
-    The ensemble's evaluator keeps numbering its jobs across calls ("0.<number>"): call c of an n-member ensemble
-    submits the job numbers c*n .. c*n+n-1.  The model's order_by_id takes the ids as INTEGERS (Z, compared with
+    The ensemble's evaluator keeps numbering its jobs across calls ("0.<number>"): a call on k members submits the job
+    numbers base .. base+k-1, base = the number of jobs of all earlier calls; calls on SUBSETS of the members (another k)
+    make base anything, not a multiple of k (C20_order_by_id_calls holds for every base).  The model's order_by_id takes the ids as INTEGERS (Z, compared with
     Z.leb - Model.order_by_id; C20_order_by_id / C20_order_by_id_calls need strictly increasing integer ids), so the
     harness hands it (job number, member) pairs in completion order; sequences of calls and ensembles of 11-13 members
     make the job numbers of one call straddle 9->10 and 99->100, where the order of the id STRINGS differs from the
@@ -770,7 +772,7 @@ def check_predictor(case):
     calls = case["calls"] if "calls" in case else [case["ranks"]]
     n = len(calls[0])
     backend = case.get("evaluator", "thread_n")
-    last = len(calls) * n - 1
+    last = sum(len((case.get("subsets") or {}).get(str(c)) or calls[0]) for c in range(len(calls))) - 1
     res = dict(ok=True, kind="oracle", clause="", sig={}, nontrivial=False,
                desc=["members=%s" % (n if n <= 5 else "6-10" if n <= 10 else "11+"), "calls=%s" % (len(calls) if len(calls) < 3 else "3+"),
                      "last_job_number=%s" % ("<10" if last < 10 else "10-99" if last < 100 else "100+"), "backend=%s" % backend]
@@ -780,9 +782,12 @@ def check_predictor(case):
     obs = observe_predictor_child(case) if backend == "process" else observe_predictor(case)
     permuted = 0
     mcalls, seen = [], []  # the same history for Model.run_calls (close_on_failure = true: the code of /repo)
+    sizes = set()
     for c, o in enumerate(obs["calls"]):
         current = o["current"]
-        base = c * n
+        base = sum(len(q["current"]) for q in obs["calls"][:c])  # jobs submitted by the earlier calls (whatever their member counts)
+        n = len(current)
+        sizes.add(n)
         if o.get("note"):
             return dict(res, ok=False, clause="member_order", detail=dict(call=c, note=o["note"]))
         if o["failing"] or o.get("raised"):
@@ -815,12 +820,19 @@ def check_predictor(case):
         return dict(res, ok=False, clause="predictor_total", sig={"error": "nontermination"}, detail=obs["detail"])
     if obs["status"] != "ok":
         raise RuntimeError(obs["detail"])
+    if len(sizes) > 1:
+        res["desc"] = res["desc"] + ["member_count_varies_between_calls"]
     res["nontrivial"] = permuted > 0 or last >= 10
     res["desc"].append("completion_order=%s" % ("permuted" if permuted else "as_submitted"))
     return res
 
 
 def observe_predictor(case):
+    import copy
+    return _observe_predictor(case, copy)
+
+
+def _observe_predictor(case, copy):
     """Runs the implementation part of a predictor case -> dict(status='ok'|'timeout'|'exc', detail, calls=[per call:
     dict(current=tags in the order of ens.predictors, tags=returned, fin=finishing times[, wseen][, note])])."""
     from deephyper.ensemble import EnsemblePredictor
@@ -854,17 +866,27 @@ def observe_predictor(case):
             mb.delay = case["unit"] * ranks[t]
             mb.fail = t in failing
         X = np.full((1, 1), float(c))  # every call asks about another X
-        o = dict(current=list(current), failing=[t for t in failing if t in current])
+        sub = (case.get("subsets") or {}).get(str(c))
+        # a call on a SUBSET of the members (another number of jobs on the same evaluator): through the public
+        # predictions_from_predictors(X, predictors), or through predict() of a shallow copy of the ensemble that shares
+        # the evaluator (what OnlineSelector.ensemble hands out)
+        cur = list(sub) if sub else list(current)
+        target = ens
+        if sub and case.get("via_predict"):
+            target = copy.copy(ens)
+            target.predictors = [members[t] for t in cur]
+            target.weights = [weights[t] for t in cur]
+        o = dict(current=cur, failing=[t for t in failing if t in cur])
         if case.get("via_predict"):
             spy.seen = None
-            st, out = with_watchdog(lambda: ens.predict(X), seconds=limit, wall=True)
+            st, out = with_watchdog(lambda: target.predict(X), seconds=limit, wall=True)
             if st == "ok":
                 if spy.seen is None:
                     out_calls.append(dict(o, note="predict() never aggregated"))
                     break
                 out, o["wseen"] = spy.seen
         else:
-            st, out = with_watchdog(lambda: ens.predictions_from_predictors(X, ens.predictors), seconds=limit, wall=True)
+            st, out = with_watchdog(lambda: ens.predictions_from_predictors(X, [members[t] for t in cur]), seconds=limit, wall=True)
         if st == "exc" and isinstance(out, RuntimeError) and "Failed to call .predict" in str(out):
             out_calls.append(dict(o, raised="RuntimeError"))  # the documented way of reporting a failing member
             continue
@@ -1142,6 +1164,24 @@ def gen_predictor(maxn):
             if tier == "search" and backend == "process":
                 continue
             yield dict(calls=[perm(n) for _ in range(c)], unit=0.05 if backend == "process" else 0.004, evaluator=backend, via_predict=(n == 4 and backend != "process"))
+        # calls with VARYING member counts on one evaluator (subsets through predictions_from_predictors, or predict() of a
+        # shallow copy of the ensemble that shares the evaluator, as OnlineSelector.ensemble does): the first job number of a
+        # call is then not a multiple of its member count.  Every latency order of the 3-member call after a 2-member call.
+        def subset(n, size):
+            return rng.sample(range(n), size)
+
+        for lat in itertools.permutations(range(3)):
+            for via in (False, True):
+                yield dict(calls=[perm(3), list(lat), perm(3)], unit=0.006, subsets={"0": subset(3, 2)}, via_predict=via)
+        for k, (n, c) in enumerate([(4, 6), (5, 5), (6, 5), (3, 8), (12, 4)] + ([(4, 12), (7, 8), (13, 4), (5, 30)] if th else [])):
+            if tier == "search" and n > 4:
+                continue
+            subs = {str(cc): subset(n, rng.randint(1, n)) for cc in range(c) if rng.random() < 0.6}
+            case = dict(calls=[perm(n) for _ in range(c)], unit=0.004, subsets=subs, via_predict=(k % 2 == 1), loader=(k % 3 == 2),
+                        evaluator="thread_default" if k % 4 == 3 else "thread_n")
+            if k % 2 == 0:
+                case["fail"] = {str(rng.randrange(1, c)): [rng.randrange(n)]}
+            yield case
         # a member that raises, at every position, finishing before / after the others, followed by further calls on the same
         # ensemble with another X, other latencies and (half of the time) another member order
         k = 0
